@@ -52,11 +52,8 @@ Prim(base)       == Mk("prim", base, Attrs0, <<>>, 0, 0, <<>>, <<>>, 0, Attrs0)
 Cls(own, ext)    == Mk("cls", "cls", Attrs0, own, ext, 0, <<>>, <<>>, 0, Attrs0)
 F(n, t) == [n |-> n, t |-> t]
 
-VARIABLES pool, nops, last
-vars == <<pool, nops, last>>
-\* 1: Integer   2: Unicode   3: class A(a: Integer, s: Unicode)   4: class B(A)(b: Integer)
-Init == /\ pool = << Prim("int"), Prim("str"), Cls(<<F("a", 1), F("s", 2)>>, 0), Cls(<<F("b", 1)>>, 3) >>
-        /\ nops = 0 /\ last = <<"init">>
+VARIABLES pool, nops, last, view
+vars == <<pool, nops, last, view>>
 Ids == 1..Len(pool)
 IsCls(i) == pool[i].kind = "cls"
 Root(i)  == IF pool[i].orig = 0 THEN i ELSE pool[i].orig
@@ -70,18 +67,31 @@ Flat(p, i) == (IF p[i].ext = 0 THEN <<>> ELSE Flat(p, p[i].ext)) \o p[i].own
 RECURSIVE CaOf(_, _, _)
 CaOf(p, i, f) == LET mine == SelectSeq(p[i].ca, LAMBDA c : c.f = f)
                  IN [k \in 1..Len(mine) |-> mine[k].kw]
+\* validation verdicts on probe values, as the attributes imply them:
+\* integers -1, 5, 7 (validate_native); texts of length 0, 3, 6 (validate_string)
+Verdicts(base, a) ==
+  IF base = "int" THEN << a.ge = NoGe \/ (0 - 1) >= a.ge, a.ge = NoGe \/ 5 >= a.ge, a.ge = NoGe \/ 7 >= a.ge >>
+  ELSE IF base = "str" THEN << 0 >= a.minlen /\ 0 <= a.maxlen, 3 >= a.minlen /\ 3 <= a.maxlen, 6 >= a.minlen /\ 6 <= a.maxlen >>
+  ELSE <<>>
 FieldProj(p, i, fld) ==
   LET t == p[fld.t] IN
-  [n |-> fld.n, base |-> t.base,
-   attrs |-> ApplyAll(ApplyAll(t.attrs, p[i].caa), CaOf(p, i, fld.n))]
+  LET a == ApplyAll(ApplyAll(t.attrs, p[i].caa), CaOf(p, i, fld.n)) IN
+  [n |-> fld.n, base |-> t.base, attrs |-> a, verd |-> Verdicts(t.base, a)]
 Proj(p, i) ==
-  [kind |-> p[i].kind, base |-> p[i].base, attrs |-> p[i].attrs,
+  [kind |-> p[i].kind, base |-> p[i].base, attrs |-> p[i].attrs, verd |-> Verdicts(p[i].base, p[i].attrs),
    fields |-> IF p[i].kind = "arr"
-                THEN << [n |-> "item", base |-> p[p[i].of].base, attrs |-> p[i].ofa] >>
+                THEN << [n |-> "item", base |-> p[p[i].of].base, attrs |-> p[i].ofa,
+                         verd |-> Verdicts(p[p[i].of].base, p[i].ofa)] >>
                 ELSE LET fl == Flat(p, i) IN [k \in 1..Len(fl) |-> FieldProj(p, i, fl[k])] ]
 
+\* 1: Integer   2: Unicode   3: class A(a: Integer, s: Unicode)   4: class B(A)(b: Integer)
+Pool0 == << Prim("int"), Prim("str"), Cls(<<F("a", 1), F("s", 2)>>, 0), Cls(<<F("b", 1)>>, 3) >>
+Init == /\ pool = Pool0 /\ nops = 0 /\ last = <<"init">>
+        /\ view = [j \in 1..4 |-> Proj(Pool0, j)]
+
 \* ---- derivation: each adds exactly one model
-Add(m, lbl) == pool' = Append(pool, m) /\ nops' = nops + 1 /\ last' = lbl /\ nops < MaxOps
+Add(m, lbl) == /\ pool' = Append(pool, m) /\ nops' = nops + 1 /\ last' = lbl /\ nops < MaxOps
+               /\ view' = [j \in 1..(Len(pool) + 1) |-> Proj(pool', j)]
 CustPrim(i, kw) ==
   /\ pool[i].kind = "prim" /\ kw \in KwFor(pool[i].base)
   /\ Add([pool[i] EXCEPT !.attrs = Apply(@, kw), !.orig = Root(i)], <<"CustPrim", i, kw>>)
@@ -117,10 +127,12 @@ AppendField(i, n, t) ==
   /\ nops < MaxOps /\ IsCls(i) /\ pool[t].kind = "prim" /\ pool[t].orig = 0 /\ Fresh(i, n)
   /\ pool' = [j \in Ids |-> IF j \in Receivers(i) THEN [pool[j] EXCEPT !.own = Append(@, F(n, t))] ELSE pool[j]]
   /\ nops' = nops + 1 /\ last' = <<"AppendField", i, n, t>>
+  /\ view' = [j \in Ids |-> Proj(pool', j)]
 InsertField(i, n, t) ==         \* at position 0 of the own fields
   /\ nops < MaxOps /\ IsCls(i) /\ pool[t].kind = "prim" /\ pool[t].orig = 0 /\ Fresh(i, n)
   /\ pool' = [j \in Ids |-> IF j \in Receivers(i) THEN [pool[j] EXCEPT !.own = InsertAt(@, 0, F(n, t))] ELSE pool[j]]
   /\ nops' = nops + 1 /\ last' = <<"InsertField", i, n, t>>
+  /\ view' = [j \in Ids |-> Proj(pool', j)]
 
 Next == \E i \in Ids :
           \/ \E kw \in KW : CustPrim(i, kw) \/ Customize(i, kw) \/ ChildAttrsAll(i, kw)
